@@ -58,7 +58,7 @@ def run_unit(unit_name, rlimit=None, extra_args=()):
     for k, o in enumerate(origin):
         if o["kind"] in ("spec", "raw") and o["label"] and o["owner"]:
             for lab in labels_of(o["label"]):
-                if lab.startswith("canary") or lab == "trusted":
+                if lab.startswith("canary") or lab == "trusted" or lab.startswith("~"):
                     continue
                 oid = "%s::%s" % (o["owner"], lab)
                 if oid not in obligations:
@@ -147,7 +147,7 @@ def run_unit(unit_name, rlimit=None, extra_args=()):
         if kind == "precondition":
             # primary span is the call site; the failed requires clause is the secondary span
             owner = o["owner"]
-        labs = labels_of(o["label"]) if o["kind"] in ("spec", "raw") else []
+        labs = [x.lstrip("~") for x in labels_of(o["label"])] if o["kind"] in ("spec", "raw") else []
         rec = dict(fn=owner, kind=kind, message=msg, gen_line=ln_no, src=o.get("src"), text=srctext[:160],
                    where=where, origin_kind=o["kind"])
         if labs and kind in ("postcondition", "invariant", "assertion", "precondition"):
